@@ -1143,6 +1143,24 @@ fn sized(payload: &str, size: usize) -> String {
     s
 }
 
+/// `payload` followed by a comment padded so that a multi-byte character (2, 3 or 4 bytes) BEGINS `back`
+/// bytes before the file offset `edge` (a multiple of the 8 KiB read size): the character straddles the
+/// edge of a block-wise reader (seed C14-c1: a file reader that validates UTF-8 block by block).
+fn straddling(payload: &str, edge: usize, ch: char, back: usize) -> String {
+    let mut s = payload.to_string();
+    let at = edge - back;
+    if s.len() + 2 > at {
+        return s;
+    }
+    s.push('#');
+    while s.len() < at {
+        s.push('p');
+    }
+    s.push(ch);
+    s.push_str(" tail\n");
+    s
+}
+
 /// 1-3 cut offsets for feeding a script through stdin in several writes: between statements, inside a
 /// statement or token, inside a multi-byte character, and at the 8 KiB chunk size of `run_stdin` and
 /// its neighbours and multiples.
@@ -1213,6 +1231,16 @@ fn generate(args: &[String]) -> i32 {
         let size = [8192usize, 16384, 8191, 8193, 20000, 40000][(k % 6) as usize];
         srcs.push((format!("sized_{size}_{label}"), sized(&payload, size)));
     }
+    // a multi-byte character across every multiple of the read size, each split position
+    for (k, (ch, back)) in [('é', 1usize), ('€', 1), ('€', 2), ('😀', 1), ('😀', 2), ('😀', 3)].into_iter().enumerate() {
+        if (k as u64) >= nbig {
+            break;
+        }
+        let (label, payload) = if rng.chance(1, 2) { binding_payload(&mut rng) } else { template(&mut rng) };
+        let edge = 8192 * (1 + (k + rng.below(2) as usize) % 3);
+        srcs.push((format!("sized_straddle{edge}_{back}_{label}"), straddling(&payload, edge, ch, back)));
+    }
+    let nbig = nbig + nbig.min(6);
     let nover = util::opt_u64(args, "--over", 6);
     for _ in 0..nover {
         srcs.push(overlimit(&mut rng));
